@@ -23,6 +23,11 @@ type PktzOp struct {
 	N          uint32 `json:"n"`
 	ClockNs    int64  `json:"clock_ns"`
 	StubFrags  []int  `json:"stub_frags,omitempty"` // per-mille of the mtu handed to the stub payloader
+	// Steer: when non-zero (and the first timestamp has been observed) the samples /
+	// skipped samples of this op are chosen at run time so that the NEXT timestamp is
+	// exactly Steer-2 (1 -> 0xFFFFFFFF, 2 -> 0, 3 -> 1): the initial timestamp is random
+	// and cannot be set, so the boundary values are reached adaptively.
+	Steer int `json:"steer,omitempty"`
 }
 
 type PktzCase struct {
@@ -177,6 +182,10 @@ func checkC06(r *run, c *PktzCase) (CaseInfo, error) {
 	for i, op := range c.Ops {
 		switch op.Kind {
 		case "skip":
+			if op.Steer != 0 && haveTS {
+				op.N = uint32(op.Steer-2) - (t0 + acc)
+				ci.class("steered-to-timestamp-boundary")
+			}
 			pk.SkipSamples(op.N)
 			acc += op.N
 			seenOther = true
@@ -223,6 +232,10 @@ func checkC06(r *run, c *PktzCase) (CaseInfo, error) {
 			}
 			if st, ok := inner.(*stub); ok {
 				st.frags = op.StubFrags
+			}
+			if op.Steer != 0 && haveTS {
+				op.Samples = uint32(op.Steer-2) - (t0 + acc)
+				ci.class("steered-to-timestamp-boundary")
 			}
 			now = op.ClockNs
 			before := sp.calls
@@ -356,13 +369,16 @@ func genPktzCase(t *rapid.T) *PktzCase {
 				}
 			}
 		}
+		if i > 0 && (kind == "skip" || kind == "packetize") && rapid.IntRange(0, 5).Draw(t, "steer") == 0 {
+			op.Steer = rapid.IntRange(1, 3).Draw(t, "steerto")
+		}
 		c.Ops = append(c.Ops, op)
 	}
 
 	return c
 }
 
-const ruleC06 = "rapid draws a packetizer configuration (MTU 64-65535 biased to 64,65,100,267,1200,1500; PT; SSRC; fixed sequencer with start biased to 65530-65535/0 or random sequencer; abs-send-time off or id 1-14 with an injected clock; payloader in {G711,G722,Opus,VP8+-pid,VP9 flexible/non-flexible,H264+-STAP-A,H265+-DONL,AV1, scripted stub}) and 1-10 operations Packetize(non-empty payload, samples)/SkipSamples/GeneratePadding(0-5). Oracle: spy on the payloader (fragments unchanged and in order), sequence/timestamp model (learned first values), fixed fields, marker, abs-send-time = exact 6.18 value of the injected instant, MarshalSize<=MTU, marshal/parse equality, padding packets valid padding-only RTP. Non-trivial = >=2 productive Packetize calls, one with >=2 packets, with a Skip/Padding before one of them; distinct = FNV-64 of the JSON case"
+const ruleC06 = "rapid draws a packetizer configuration (MTU 64-65535 biased to 64,65,100,267,1200,1500; PT; SSRC; fixed sequencer with start biased to 65530-65535/0 or random sequencer; abs-send-time off or id 1-14 with an injected clock; payloader in {G711,G722,Opus,VP8+-pid,VP9 flexible/non-flexible,H264+-STAP-A,H265+-DONL,AV1, scripted stub}) and 1-10 operations Packetize(non-empty payload, samples)/SkipSamples/GeneratePadding(0-5); one op in six is 'steered': its sample count is computed at run time from the learned first timestamp so that the next timestamp is exactly 0xFFFFFFFF, 0 or 1. Oracle: spy on the payloader (fragments unchanged and in order), sequence/timestamp model (learned first values), fixed fields, marker, abs-send-time = exact 6.18 value of the injected instant, MarshalSize<=MTU, marshal/parse equality, padding packets valid padding-only RTP. Non-trivial = >=2 productive Packetize calls, one with >=2 packets, with a Skip/Padding before one of them; distinct = FNV-64 of the JSON case"
 
 func TestC06(t *testing.T) {
 	r := begin(t, "C06", "exploration", ruleC06)
